@@ -264,6 +264,9 @@ def r5_types_and_state(ctx):
         ctx.touch(ENC, f"InteractionsEncoder.{name}")
         stores = self_state_stores(fn, c.methods.values())
         decs = [unparse(d) for d in fn.decorator_list]
+        if name in ("__reduce__", "__reduce_ex__", "__getstate__", "__setstate__", "__copy__", "__deepcopy__", "__getnewargs__"):
+            ctx.ob("C20.R5", ENC, f"InteractionsEncoder.{name}", fn, "the encoder is copied and pickled by the default protocol (a copy made for a new evaluation or a worker encodes "
+                   "exactly the terms, powers included, of the original)", False, stmt=f"custom {name}")
         ctx.ob("C20.R5", ENC, f"InteractionsEncoder.{name}", fn, "the method keeps no state between calls (no store on self other than write-only counters, no memo decorator)",
                not stores and not any("cache" in d for d in decs), detail={"stores": stores, "decorators": decs}, stmt=f"InteractionsEncoder.{name} stateless")
 
@@ -321,7 +324,14 @@ def _memo_pows(tree):
     fn.body.insert(0, ast.parse("self._memo = (id(values), degree)").body[0])
 
 
+def _lossy_reduce(tree):
+    from ..mutate import find_def
+    c = find_def(tree, "InteractionsEncoder")
+    c.body.append(ast.parse("def __reduce__(self):\n    return (InteractionsEncoder, ([''.join(p) for p in self._cross_pows.values()],))").body[0])
+
+
 CONTROLS = [
+    ("encoder rebuilt from its namespace letters on copy", ENC, _lossy_reduce, "C20.R5"),
     ("_pows remembers its last argument", ENC, _memo_pows, "C20.R5"),
     ("Sparse registers dict only", "coba/primitives.py", lambda tree: __import__("cobastatic.rules.c16", fromlist=["_reg_dict"])._reg_dict(tree), "C20.R5"),
     ("offset table of the published version", ENC, M.replace_expr("InteractionsEncoder._pows", "list(accumulate([1] + [n_prev - s + 1 for s in starts[:-1]]))", "list(accumulate(starts[:1] + starts[-1:] + starts[1:-1]))"), "C20.R4"),
